@@ -60,6 +60,9 @@ structure IEnv where
   hash : HashKind → Bytes → Bytes
   lockTime : Nat
   sequence : Nat
+  /-- version of the spending transaction.  NOT consulted by the unchanged interpreter
+  (`from_txdata` never receives it): see `C13.interp_unsound_csv_tx_version_1` -/
+  txVersion : Nat := 2
 
 abbrev R := Except IErr (AStack × List Constraint)
 
